@@ -354,10 +354,10 @@ func ruleC14B3(r *Run) {
 			return
 		}
 		bo, ok := ifs.Cond.(*ssa.BinOp)
-		if !ok || bo.Op != token.GTR {
+		if !ok {
 			return
 		}
-		if k, isK := constInt(bo.Y); isK && k == 65535 {
+		if k, isK := constInt(bo.Y); isK && ((bo.Op == token.GTR && k == 65535) || (bo.Op == token.GEQ && k == 65536)) {
 			// true edge returns an error wrapping the sentinel
 			for _, x := range ifs.Block().Succs[0].Instrs {
 				if ret, isRet := x.(*ssa.Return); isRet {
